@@ -34,9 +34,23 @@ Theorem C30_compare_fields_eq : forall o u fs,
 Proof. exact compare_fields_eq. Qed.
 Print Assumptions C30_compare_fields_eq.
 
-Theorem C30_hash_fields_eq : forall fs, cy_hash_names fs = py_hash_names fs.
+(* full statement, true only for the repaired `hash is None` test (hx = true) *)
+Theorem C30_hash_fields_eq : forall fs, cy_hash_names true fs = py_hash_names fs.
 Proof. exact hash_fields_eq. Qed.
 Print Assumptions C30_hash_fields_eq.
+
+(* the code as it is (hx = false) *)
+Theorem C30_hash_fields_eq_partial : forall fs,
+  hash_none_is_compared fs -> cy_hash_names false fs = py_hash_names fs.
+Proof. exact hash_fields_eq_partial. Qed.
+Print Assumptions C30_hash_fields_eq_partial.
+
+(* full statement (false): forall fs, cy_hash_names false fs = py_hash_names fs *)
+Theorem C30_hash_fields_compare_false_refuted : exists fs,
+  cy_hash_names false fs = [1%N; 2%N] /\ py_hash_names fs = [1%N] /\ py_cmp_names fs = [1%N]
+  /\ cy_cmp_names fs = [1%N].
+Proof. exact hash_fields_compare_false_refuted. Qed.
+Print Assumptions C30_hash_fields_compare_false_refuted.
 
 (* the (unsafe_hash, eq, frozen, explicit __hash__) -> action decision, all 16 rows *)
 Theorem C30_hash_action_eq : forall unsafe eq frozen expl,
@@ -52,12 +66,12 @@ Proof. vm_compute. reflexivity. Qed.
 Print Assumptions C30_hash_action_table_eq.
 
 Theorem C30_hash_eq_partial : forall o u fs,
-  explicit_hash_agree u -> cy_hash o u fs = py_hash o u fs.
+  explicit_hash_agree u -> cy_hash true o u fs = py_hash o u fs.
 Proof. exact hash_eq_partial. Qed.
 Print Assumptions C30_hash_eq_partial.
 
-(* full statement (false): forall o u fs, cy_hash o u fs = py_hash o u fs *)
-Theorem C30_hash_eq_refuted : exists o u fs, cy_hash o u fs = HErr /\ py_hash o u fs = HAdd [1%N].
+(* full statement (false): forall o u fs, cy_hash true o u fs = py_hash o u fs *)
+Theorem C30_hash_eq_refuted : exists o u fs, cy_hash true o u fs = HErr /\ py_hash o u fs = HAdd [1%N].
 Proof. exact hash_eq_refuted. Qed.
 Print Assumptions C30_hash_eq_refuted.
 
@@ -99,9 +113,15 @@ Print Assumptions C30_rejected_order_without_eq_refuted.
 
 (* every decision at once on the complement of the finding classes *)
 Theorem C30_decisions_eq_partial : forall o u fs,
-  domain_ok o u fs -> cy_decide o u fs = py_decide o u fs.
+  domain_ok o u fs -> cy_decide true o u fs = py_decide o u fs.
 Proof. exact decisions_eq_partial. Qed.
 Print Assumptions C30_decisions_eq_partial.
+
+(* the same for the code as it is, on the further complement of the hash-field finding *)
+Theorem C30_decisions_eq_asis_partial : forall o u fs,
+  domain_ok o u fs -> hash_none_is_compared fs -> cy_decide false o u fs = py_decide o u fs.
+Proof. exact decisions_eq_asis_partial. Qed.
+Print Assumptions C30_decisions_eq_asis_partial.
 
 (* the synthesised field-by-field comparison cascade is the tuple comparison of
    dataclasses.py, for any element type obeying the comparison contract *)
